@@ -123,7 +123,8 @@ pub enum OpResult {
     Exchange { name: String },
     Got(Option<Msg>),
     Consumed { tag: String, deliveries: Vec<Msg>, terminal: String },
-    Settled { panicked: bool, result_ok: bool },
+    /// `error`: None when the settle call returned Ok, otherwise the error's Debug rendering
+    Settled { panicked: bool, error: Option<String> },
     Err(String),
 }
 
@@ -487,8 +488,8 @@ fn exec_inner(env: &ChanEnv, op: &Op, op_index: usize) -> Result<OpResult, OpRes
                         }
                     }));
                     match r {
-                        Ok(r) => OpResult::Settled { panicked: false, result_ok: r.is_ok() },
-                        Err(_) => OpResult::Settled { panicked: true, result_ok: false },
+                        Ok(r) => OpResult::Settled { panicked: false, error: r.err().map(|e| format!("{:?}", e)) },
+                        Err(p) => OpResult::Settled { panicked: true, error: Some(p.message) },
                     }
                 }
                 SettleRoute::Consumer => {
@@ -519,10 +520,13 @@ fn exec_inner(env: &ChanEnv, op: &Op, op_index: usize) -> Result<OpResult, OpRes
                         SettleHow::NackMultiple { requeue } => own.nack_multiple(d, requeue),
                         SettleHow::Reject { requeue } => own.reject(d, requeue),
                     }));
+                    // cancel explicitly so that a failure is visible (Drop would discard it)
+                    let cancel_err = own.cancel().err().map(|e| format!("{:?}", e));
                     drop(own);
                     match r {
-                        Ok(r) => OpResult::Settled { panicked: false, result_ok: r.is_ok() },
-                        Err(_) => OpResult::Settled { panicked: true, result_ok: false },
+                        Ok(Ok(())) => OpResult::Settled { panicked: false, error: cancel_err },
+                        Ok(r) => OpResult::Settled { panicked: false, error: r.err().map(|e| format!("{:?}", e)) },
+                        Err(p) => OpResult::Settled { panicked: true, error: Some(p.message) },
                     }
                 }
             }
@@ -991,11 +995,20 @@ pub fn expected_result(op: &Op, ch: u16, salt: u64, seq_before: u32) -> Option<O
             terminal: "ClientCancelled;".into(),
         },
         Op::AckAll | Op::NackAll { .. } => OpResult::Unit,
+        // the panic message of a cross-channel settle is not compared (see `results_match`)
         Op::Settle { cross_channel, .. } => OpResult::Settled {
             panicked: *cross_channel,
-            result_ok: !*cross_channel,
+            error: if *cross_channel { Some(String::new()) } else { None },
         },
     })
+}
+
+/// Result comparison: equal, except that the text of a settle panic is not compared.
+pub fn results_match(got: &OpResult, want: &OpResult) -> bool {
+    match (got, want) {
+        (OpResult::Settled { panicked: true, .. }, OpResult::Settled { panicked: true, .. }) => true,
+        (a, b) => a == b,
+    }
 }
 
 // ---------------------------------------------------------------------------------------------
